@@ -67,10 +67,15 @@
      the evaluation phase of a doomed state cannot return Ok (it replays the strict run's insertions on a graph that
      extends the strict one, so the conflicting value is there whatever edges were inserted first, and
      `evaluate_all` forces every thunk).
-     NOT proved: the failure direction on fragment v2 (scoped variables: a read before the definition and a second
-     definition of the same (node, name) are order dependent / deferred to the cells); "lazy IS Err from some fuel on"
-     — FALSE in the model: lazy execution runs the statements after the failure point, which may diverge
-     (strict_fail_lazy_diverges_k2).
+     NOT proved: "lazy IS Err from some fuel on" — FALSE in the model: lazy execution runs the statements after the
+     failure point, which may diverge (strict_fail_lazy_diverges_k2).
+   * strict_fail_lazy_fail_scoped_partial / strict_fail_lazy_err_scoped_partial — the FAILURE direction on fragment v2, WITH
+     scoped variables (Proofs/SLF2Store.v, SLF2Jok.v, SLF2Eval.v, SLF2Expr.v, SLF2Stmt.v, SLF2Whole.v, SLF2File.v; at the end of
+     this file): see the comment there.  Order-independent errors are now `order_independent_error2`: additionally NOT
+     UndefinedVariable (the strict interpreter reports a scoped variable that is not defined YET with that error:
+     strict_fail_lazy_ok_undefined_scoped_refuted); inherited names need the STATIC condition `inh_static`
+     (strict_fail_lazy_ok_inherited_refuted shows that no condition on the strict store can do).  Any order of the blocks:
+     strict_fail_lazy_fail_any_order_scoped_partial (+ `_thunks_`, `_err_`, `_run_one_`).
    * strict_lazy_iso_any_order_partial, strict_lazy_iso_any_order_scoped_partial (+ the `_every_fuel` forms) — ARBITRARY INTERLEAVING of the
      matches (Proofs/SLAny.v): the real lazy interpreter does not visit the matches in strict order; it executes the blocks in the order
      tree-sitter reports the matches of the merged query, a list ms' with Permutation (lmatches_of ms) ms' (assumption A3 of C03, validated per
@@ -682,3 +687,263 @@ Qed.
 (* the purity declaration must agree with the bits: declaring p (bound to a scoped read) pure is refused *)
 Example strict_lazy_bad_purev_refused : pv_file (fun x => str_eqb x [112]) ex2_file = false.
 Proof. vm_compute. reflexivity. Qed.
+
+(* ================= FAILURE DIRECTION WITH SCOPED VARIABLES (fragment v2; Proofs/SLF2*.v) =================
+   If strict execution of a file of fragment v2 (`file_ok2`: immutable scoped definitions with pure scope expressions, scoped reads in
+   deferred positions, pure eager positions) returns `Err e` with `order_independent_error2 e`, lazy execution of the same file on the
+   same matches (strict order) returns Ok at NO fuel.
+   * `order_independent_error2 e` (Proofs/SLF2Expr.v): the root cause of e is not UndefinedEdge, not Cancelled (as on fragment v1) and
+     not UndefinedVariable.  The strict interpreter reports a scoped variable that has no definition YET as UndefinedVariable (the same
+     constructor as for an undefined local variable — the model drops the message text); the definition may come LATER in file
+     order, and then lazy execution succeeds: ORDER DEPENDENT (strict_fail_lazy_ok_undefined_scoped_refuted).  Order independent and
+     covered: DuplicateVariable on a scoped variable (the second definition of a (node, name): the lazy cell lists the node twice and the
+     final sweep over the cells fails), InvalidVariableScope (lazy: ExpectedSyntaxNode when the cell is forced), type errors, failing and
+     unknown functions — also inside the VALUE of a scoped variable that nobody reads: strict evaluates the value at the definition,
+     lazy stores a thunk that `evaluate_all` forces at the end —, conflicting attributes (also through scoped reads), the eager failures.
+   * `inh_static t fl ms` (Proofs/SLF2File.v), the STATIC side condition on inherited names: there is a family D of syntax nodes per
+     name such that every definition of an inherited name — in every statement at any depth of every stanza, executed or not — has a
+     CAPTURE as scope expression whose nodes, in every supplied match of that stanza, lie in D; and no node of D name has a proper
+     ancestor in D name.  Void when the file declares no inherited name (inh_static_nil_partial).  Why static, and stronger than
+     `inh_antichain`: a failing strict run has no final store; after the failure point lazy execution goes on executing the statements
+     strict never reached, and a definition made THERE on a nearer ancestor changes the value a read before the failure point resolves
+     to — strict_fail_lazy_ok_inherited_refuted: strict fails with ExpectedGraphNode reading the root's definition, lazy succeeds because a
+     later stanza defines the name on the parent; the strict store at the failure point satisfies inh_antichain.
+   Proof: up to the failing strict step the success simulation of version 2 (world w) relates the runs.  After it nothing is known of
+   the later thunks and of the pairs appended to the scoped CELLS; the invariant `K w` keeps the early thunks (forced to their value,
+   unforced with a denoting body, or being forced) and the early prefix of every cell; forcing is PARTIALLY correct on K-states
+   (`evJ`, induction on the fuel alone: if evaluating any lazy value returns Ok the state is a K-state again and a value that denotes v
+   in w yields v — the total forcing lemmas are lost because forcing an early cell evaluates the scopes of later pairs); an inherited
+   read resolves to the recorded definer because the keys of every forced map lie in the antichain D.  Dooms: a thunk with a bad body,
+   a cell with a pair whose scope cannot evaluate to a syntax node, a world whose early definitions contain a node twice, a bad deferred
+   statement, an attribute that conflicts with the replayed strict graph; every lazy computation preserves doom (statements: under the
+   static condition) and the evaluation phase of a doomed state never returns Ok (the final sweeps force every thunk and every cell). *)
+From TSG Require Import Proofs.SLF2Store Proofs.SLF2Expr Proofs.SLF2File Proofs.SLF2Example Proofs.SLF2Any Proofs.SLF2AnyExample Proofs.ScThExec.
+
+Theorem strict_fail_lazy_fail_scoped_partial :
+  forall {rx : Type} t fl supplied (regexes : list rx) find call (okfn : ident -> Prop) (purev : ident -> bool) fuel ms g0 e,
+  (forall f, okfn f -> pure_fn call f) ->
+  (forall f, okfn f -> pure_err_fn call f) ->
+  call_graph_ext call ->
+  file_ok2 okfn purev fl (f_stanzas fl) ms ->
+  inh_static t fl ms ->
+  run_strict t fl config0 supplied None regexes find call fuel ms g0 = Err e ->
+  order_independent_error2 e ->
+  forall lfuel,
+    match run_lazy t fl config0 supplied None regexes find call lfuel (lmatches_of ms) g0 with
+    | Ok _ => False
+    | Err _ | Panic _ | OutOfFuel => True
+    end.
+Proof. exact @strict_fail_lazy_fail_scoped_lemma. Qed.
+
+(* ... with the hypotheses of lazy_exec_no_panic (Props/C05.v): lazy execution FAILS (returns Err), unless the model runs out of fuel *)
+Theorem strict_fail_lazy_err_scoped_partial :
+  forall {rx : Type} (sok : N -> Prop) t fl supplied (regexes : list rx) find call (okfn : ident -> Prop) (purev : ident -> bool) fuel ms g0 e,
+  (forall f, okfn f -> pure_fn call f) ->
+  (forall f, okfn f -> pure_err_fn call f) ->
+  call_graph_ext call ->
+  file_ok2 okfn purev fl (f_stanzas fl) ms ->
+  inh_static t fl ms ->
+  WellFormedFile regexes fl -> GoodMatchesLazy sok fl (lmatches_of ms) -> GoodGlobals sok g0 supplied -> GoodCall sok call ->
+  run_strict t fl config0 supplied None regexes find call fuel ms g0 = Err e ->
+  order_independent_error2 e ->
+  forall lfuel,
+    match run_lazy t fl config0 supplied None regexes find call lfuel (lmatches_of ms) g0 with
+    | Err _ | OutOfFuel => True
+    | Ok _ | Panic _ => False
+    end.
+Proof. exact @strict_fail_lazy_err_scoped_lemma. Qed.
+
+(* without inherited names the static side condition holds *)
+Theorem inh_static_nil_partial : forall t fl ms, f_inherited fl = [] -> inh_static t fl ms.
+Proof. exact inh_static_nil. Qed.
+(* what `order_independent_error2` says *)
+Theorem order_independent_error2_spec : forall e,
+  order_independent_error2 e <-> match root_cause e with EUndefinedEdge | ECancelled _ | EUndefinedVariable => False | _ => True end.
+Proof.
+  intros e. unfold order_independent_error2, okerr2, okerr. destruct (root_cause e); intuition congruence.
+Qed.
+
+(* the eager-position purity of the fragment derived from the checker (C06), as for the success direction *)
+Theorem strict_fail_lazy_fail_scoped_checked_partial :
+  forall {rx : Type} t q f fl supplied (regexes : list rx) find call (okfn : ident -> Prop) (purev : ident -> bool) fuel ms g0 e,
+  check_file q f = CkOk fl -> pv_file purev fl = true ->
+  (forall f, okfn f -> pure_fn call f) ->
+  (forall f, okfn f -> pure_err_fn call f) ->
+  call_graph_ext call ->
+  file_ok2_ns okfn purev fl (f_stanzas fl) ms ->
+  inh_static t fl ms ->
+  run_strict t fl config0 supplied None regexes find call fuel ms g0 = Err e ->
+  order_independent_error2 e ->
+  forall lfuel,
+    match run_lazy t fl config0 supplied None regexes find call lfuel (lmatches_of ms) g0 with
+    | Ok _ => False
+    | Err _ | Panic _ | OutOfFuel => True
+    end.
+Proof.
+  intros rx t q f fl supplied regexes find call okfn purev fuel ms g0 e Hck Hpv Hpure Hperr Hext Hok.
+  exact (strict_fail_lazy_fail_scoped_partial t fl supplied regexes find call okfn purev fuel ms g0 e Hpure Hperr Hext
+           (checked_file_ok2 q f fl okfn purev ms Hck Hpv Hok)).
+Qed.
+
+(* NON-VACUITY (Proofs/SLF2Example.v; tree "p\nq\nr\n": module 0, expression statements 1 3 5, identifiers 2 4 6).  All hypotheses hold,
+   strict fails, lazy fails with the cause shown, and the theorem excludes lazy success at every fuel:
+   sf1  (identifier) @x { let @x.v = (plus "a" 1)  node @x.n }: a scoped variable whose VALUE has a type error.  Strict evaluates the
+        value AT THE DEFINITION and fails there (ExpectedInteger) — not at a read; lazy stores a thunk, NOBODY reads @x.v, and the final
+        sweep `evaluate_all` forces the thunk: ExpectedInteger.
+   sf2  (identifier) @x { node @x.n }  (expression_statement (identifier) @y) @s { node @y.n }: DuplicateVariable in both modes (lazy: when
+        the final sweep forces the cell of n).
+   sf3  (identifier) @x { node 3.n }: strict InvalidVariableScope, lazy ExpectedSyntaxNode (final sweep).
+   sf4  (identifier) @x { let @x.v = "s" }  (expression_statement (identifier) @y) @s { node @s.st  edge @s.st -> @y.v }: a scoped read in a
+        deferred position with a value of the wrong type: ExpectedGraphNode in both modes.
+   sf5  inherit .v  (module) @x { let @x.v = "s" }  (identifier) @x { node @x.r  edge @x.r -> @x.v }: an INHERITED name under the static
+        condition (D v = {root}); ExpectedGraphNode in both modes. *)
+Example strict_fail_lazy_fail_scoped_nonvacuous :
+  (forall f, fe_okfn f -> pure_fn fe_call f) /\ (forall f, fe_okfn f -> pure_err_fn fe_call f) /\ call_graph_ext fe_call /\
+  (file_ok2 fe_okfn nopure sf1_file (f_stanzas sf1_file) ms1 /\ inh_static k7_tree sf1_file ms1 /\
+   err_cause (sf_strict sf1_file ms1) = Some EExpectedInteger /\ err_cause (sf_lazy sf1_file ms1) = Some EExpectedInteger /\
+   forall lfuel, match run_lazy k7_tree sf1_file config0 [[]] None ([] : list regex) rx_captures fe_call lfuel (lmatches_of ms1) [] with Ok _ => False | _ => True end) /\
+  (file_ok2 fe_okfn nopure sf2_file (f_stanzas sf2_file) ms2 /\
+   err_cause (sf_strict sf2_file ms2) = Some EDuplicateVariable /\ err_cause (sf_lazy sf2_file ms2) = Some EDuplicateVariable /\
+   forall lfuel, match run_lazy k7_tree sf2_file config0 [[]] None ([] : list regex) rx_captures fe_call lfuel (lmatches_of ms2) [] with Ok _ => False | _ => True end) /\
+  (file_ok2 fe_okfn nopure sf3_file (f_stanzas sf3_file) ms1 /\
+   err_cause (sf_strict sf3_file ms1) = Some EInvalidVariableScope /\ err_cause (sf_lazy sf3_file ms1) = Some EExpectedSyntaxNode /\
+   forall lfuel, match run_lazy k7_tree sf3_file config0 [[]] None ([] : list regex) rx_captures fe_call lfuel (lmatches_of ms1) [] with Ok _ => False | _ => True end) /\
+  (file_ok2 fe_okfn nopure sf4_file (f_stanzas sf4_file) ms2 /\
+   err_cause (sf_strict sf4_file ms2) = Some EExpectedGraphNode /\ err_cause (sf_lazy sf4_file ms2) = Some EExpectedGraphNode /\
+   forall lfuel, match run_lazy k7_tree sf4_file config0 [[]] None ([] : list regex) rx_captures fe_call lfuel (lmatches_of ms2) [] with Ok _ => False | _ => True end) /\
+  (f_inherited sf5_file <> [] /\ file_ok2 fe_okfn nopure sf5_file (f_stanzas sf5_file) ms5 /\ inh_static k7_tree sf5_file ms5 /\
+   err_cause (sf_strict sf5_file ms5) = Some EExpectedGraphNode /\ err_cause (sf_lazy sf5_file ms5) = Some EExpectedGraphNode /\
+   forall lfuel, match run_lazy k7_tree sf5_file config0 [[]] None ([] : list regex) rx_captures fe_call lfuel (lmatches_of ms5) [] with Ok _ => False | _ => True end).
+Proof.
+  split; [exact fe_pure|]. split; [exact fe_pure_err|]. split; [exact fe_graph_ext|].
+  split; [split; [exact sf1_file_ok|split; [apply inh_static_nil; reflexivity|split; [exact sf1_strict|split; [exact sf1_lazy|exact sf1_applies]]]]|].
+  split; [split; [exact sf2_file_ok|split; [exact sf2_strict|split; [exact sf2_lazy|exact sf2_applies]]]|].
+  split; [split; [exact sf3_file_ok|split; [exact sf3_strict|split; [exact sf3_lazy|exact sf3_applies]]]|].
+  split; [split; [exact sf4_file_ok|split; [exact sf4_strict|split; [exact sf4_lazy|exact sf4_applies]]]|].
+  split; [discriminate|]. split; [exact sf5_file_ok|]. split; [exact sf5_static|]. split; [exact sf5_strict|]. split; [exact sf5_lazy|exact sf5_applies].
+Qed.
+
+(* WITNESS 1: the excluded error kind IS order dependent with scoped variables.  A program of fragment v2 without inherited names
+     (identifier) @x { node @x.n  attr (@x.n) k = @x.late }     (expression_statement (identifier) @y) @s { let @y.late = 1 }
+   strict: UndefinedVariable in the first stanza (an error that satisfies `order_independent_error` of fragment v1);
+   lazy: Ok with three nodes — the definition comes later in the file *)
+Example strict_fail_lazy_ok_undefined_scoped_refuted :
+  file_ok2 fe_okfn nopure sr1_file (f_stanzas sr1_file) ms2 /\ inh_static k7_tree sr1_file ms2 /\
+  (exists e, sf_strict sr1_file ms2 = Err e /\ root_cause e = EUndefinedVariable /\ order_independent_error e /\ ~ order_independent_error2 e) /\
+  exists g, lgraph_of (sf_lazy sr1_file ms2) = Ok g /\ length g = 3%nat.
+Proof.
+  split; [exact sr1_file_ok|]. split; [apply inh_static_nil; reflexivity|]. split; [|exact sr1_lazy].
+  eexists. split; [vm_compute; reflexivity|]. split; [reflexivity|]. split; [exact I|]. intros [_ H]. apply H. reflexivity.
+Qed.
+
+(* WITNESS 2: with inherited names the statement is FALSE without the static condition.
+     inherit .v   (module) @x { let @x.v = "s" }   (identifier) @x { node @x.r  edge @x.r -> @x.v }
+                  (expression_statement (identifier) @y) @s { node @s.v }
+   strict: ExpectedGraphNode in the second stanza (v inherited from the root; order_independent_error2 holds); lazy: Ok with six nodes —
+   the third stanza, never reached by strict, defines v on the PARENT of the identifier.  `inh_static` fails, as it must. *)
+Example strict_fail_lazy_ok_inherited_refuted :
+  (forall f, fe_okfn f -> pure_fn fe_call f) /\ (forall f, fe_okfn f -> pure_err_fn fe_call f) /\ call_graph_ext fe_call /\
+  file_ok2 fe_okfn nopure sr2_file (f_stanzas sr2_file) ms6 /\
+  (exists e, sf_strict sr2_file ms6 = Err e /\ root_cause e = EExpectedGraphNode /\ order_independent_error2 e) /\
+  (exists g, lgraph_of (sf_lazy sr2_file ms6) = Ok g /\ length g = 6%nat) /\
+  ~ inh_static k7_tree sr2_file ms6.
+Proof.
+  split; [exact fe_pure|]. split; [exact fe_pure_err|]. split; [exact fe_graph_ext|]. split; [exact sr2_file_ok|]. split; [|split; [exact sr2_lazy|exact sr2_not_static]].
+  eexists. split; [vm_compute; reflexivity|]. split; [reflexivity|]. split; [exact I|discriminate].
+Qed.
+
+(* ANY ORDER of the blocks (Proofs/SLF2Any.v): composition with the scoped block-order theorems of C08 read backwards, on the intersection
+   of the fragments (as for strict_lazy_iso_any_order_scoped_partial) *)
+Theorem strict_fail_lazy_fail_any_order_scoped_partial :
+  forall (rx : Type) t fl supplied (regexes : list rx) find call (okfn : ident -> Prop),
+  (forall f, okfn f -> call_ok call f) ->
+  forall g0 : graph, gclosed (N.of_nat (length g0)) g0 ->
+  (forall glob, check_globals (f_globals fl) (globals_nested supplied) = Ok glob ->
+     forall name v, globals_get glob name = Some v -> vall (fun i => i < N.of_nat (length g0)) v) ->
+  forall (purev : ident -> bool) fuel ms e (ms' : list (N * qmatch)),
+  call_graph_ext call ->
+  file_ok2 okfn purev fl (f_stanzas fl) ms -> inh_static t fl ms ->
+  Forall (pm_ok2 fl okfn) (lmatches_of ms) ->
+  run_strict t fl config0 supplied None regexes find call fuel ms g0 = Err e ->
+  order_independent_error2 e ->
+  Permutation (lmatches_of ms) ms' ->
+  forall lfuel,
+    match run_lazy t fl config0 supplied None regexes find call lfuel ms' g0 with
+    | Ok _ => False
+    | Err _ | Panic _ | OutOfFuel => True
+    end.
+Proof. exact @strict_fail_lazy_fail_any_order_scoped_lemma. Qed.
+(* ... on the fragment of C08 with scoped reads inside thunks (`pm_ok3`, taint tnt on variable names) *)
+Theorem strict_fail_lazy_fail_any_order_scoped_thunks_partial :
+  forall (rx : Type) t fl supplied (regexes : list rx) find call (okfn : ident -> Prop),
+  (forall f, okfn f -> call_ok call f) ->
+  forall g0 : graph, gclosed (N.of_nat (length g0)) g0 ->
+  (forall glob, check_globals (f_globals fl) (globals_nested supplied) = Ok glob ->
+     forall name v, globals_get glob name = Some v -> vall (fun i => i < N.of_nat (length g0)) v) ->
+  forall (tnt purev : ident -> bool) fuel ms e (ms' : list (N * qmatch)),
+  call_graph_ext call ->
+  file_ok2 okfn purev fl (f_stanzas fl) ms -> inh_static t fl ms ->
+  Forall (pm_ok3 fl okfn tnt) (lmatches_of ms) ->
+  run_strict t fl config0 supplied None regexes find call fuel ms g0 = Err e ->
+  order_independent_error2 e ->
+  Permutation (lmatches_of ms) ms' ->
+  forall lfuel,
+    match run_lazy t fl config0 supplied None regexes find call lfuel ms' g0 with
+    | Ok _ => False
+    | Err _ | Panic _ | OutOfFuel => True
+    end.
+Proof. exact @strict_fail_lazy_fail_any_order_scoped_thunks_lemma. Qed.
+(* ... with the no-panic hypotheses: the lazy run in any order IS Err unless the model runs out of fuel *)
+Theorem strict_fail_lazy_err_any_order_scoped_partial :
+  forall (rx : Type) t fl supplied (regexes : list rx) find call (okfn : ident -> Prop),
+  (forall f, okfn f -> call_ok call f) ->
+  forall g0 : graph, gclosed (N.of_nat (length g0)) g0 ->
+  (forall glob, check_globals (f_globals fl) (globals_nested supplied) = Ok glob ->
+     forall name v, globals_get glob name = Some v -> vall (fun i => i < N.of_nat (length g0)) v) ->
+  forall (sok : N -> Prop) (purev : ident -> bool) fuel ms e (ms' : list (N * qmatch)),
+  call_graph_ext call ->
+  file_ok2 okfn purev fl (f_stanzas fl) ms -> inh_static t fl ms ->
+  Forall (pm_ok2 fl okfn) (lmatches_of ms) ->
+  WellFormedFile regexes fl -> GoodMatchesLazy sok fl (lmatches_of ms) -> GoodGlobals sok g0 supplied -> GoodCall sok call ->
+  run_strict t fl config0 supplied None regexes find call fuel ms g0 = Err e ->
+  order_independent_error2 e ->
+  Permutation (lmatches_of ms) ms' ->
+  forall lfuel,
+    match run_lazy t fl config0 supplied None regexes find call lfuel ms' g0 with
+    | Err _ | OutOfFuel => True
+    | Ok _ | Panic _ => False
+    end.
+Proof. exact @strict_fail_lazy_err_any_order_scoped_lemma. Qed.
+(* ... about `run_one`, the function the correspondence harness evaluates for both modes *)
+Theorem strict_fail_lazy_fail_run_one_scoped_partial :
+  forall t (r : run_in) (okfn : ident -> Prop) (g0 : graph),
+  (forall f, okfn f -> call_ok (the_call t (ri_tbl r)) f) ->
+  gclosed (N.of_nat (length g0)) g0 ->
+  (forall glob, check_globals (f_globals (ri_file r)) (globals_nested (ri_supplied r)) = Ok glob ->
+     forall name v, globals_get glob name = Some v -> vall (fun i => i < N.of_nat (length g0)) v) ->
+  Permutation (lmatches_of (ri_smatches r)) (ri_lmatches r) ->
+  forall (purev : ident -> bool) e,
+  call_graph_ext (the_call t (ri_tbl r)) ->
+  file_ok2 okfn purev (ri_file r) (f_stanzas (ri_file r)) (ri_smatches r) -> inh_static t (ri_file r) (ri_smatches r) ->
+  Forall (pm_ok2 (ri_file r) okfn) (lmatches_of (ri_smatches r)) ->
+  run_one t config0 None (with_lazy r false) g0 = Err e ->
+  order_independent_error2 e ->
+  match run_one t config0 None (with_lazy r true) g0 with
+  | Ok _ => False
+  | Err _ | Panic _ | OutOfFuel => True
+  end.
+Proof. exact strict_fail_lazy_fail_run_one_scoped_lemma. Qed.
+
+(* non-vacuity (Proofs/SLF2AnyExample.v): ay4 = (identifier) @x { node @x.n  attr (@x.n) k = (plus 1 2) }
+   (expression_statement (identifier) @x) @s { node m  edge m -> @x.n  attr (@x.n) k = 5 } on the interleaving ay_ms' (a reader first):
+   DuplicateAttribute through a scoped read in both modes; success excluded at every fuel *)
+Example strict_fail_lazy_fail_any_order_scoped_nonvacuous :
+  Permutation (lmatches_of ay_ms) ay_ms' /\ lmatches_of ay_ms <> ay_ms' /\
+  file_ok2 c8_okfn (fun _ => false) ay4_file (f_stanzas ay4_file) ay_ms /\ Forall (pm_ok2 ay4_file c8_okfn) (lmatches_of ay_ms) /\
+  err_cause (run_strict k7_tree ay4_file config0 [[]] None ([] : list regex) rx_captures c8_call default_fuel ay_ms []) = Some EDuplicateAttribute /\
+  err_cause (run_lazy k7_tree ay4_file config0 [[]] None ([] : list regex) rx_captures c8_call default_fuel ay_ms' []) = Some EDuplicateAttribute /\
+  (forall lfuel, match run_lazy k7_tree ay4_file config0 [[]] None ([] : list regex) rx_captures c8_call lfuel ay_ms' [] with
+                 | Ok _ => False | Err _ | Panic _ | OutOfFuel => True end).
+Proof.
+  split; [exact ay_perm|]. split; [discriminate|]. split; [exact ay4_file_ok|]. split; [exact ay4_blocks_ok|]. split; [exact ay4_strict|]. split; [exact ay4_lazy|exact ay4_theorem_applies].
+Qed.
